@@ -76,7 +76,7 @@ def observe_case(case):
             if isinstance(entry, list):
                 # curried entry point of a parameterised class: C.parse(values...)(text, pos, fullparse)
                 fn = getattr(mod, entry[0]).parse(*[unproject(v) for v in entry[1]])
-            elif entry == start and not cfg.get('via_rule', False):
+            elif (entry == start or entry == cfg.get('module_entry')) and not cfg.get('via_rule', False):
                 fn = mod.parse
             else:
                 fn = getattr(mod, entry).parse
